@@ -41,6 +41,12 @@ def gen_world(seed, wi):
     smp = {"name": "s0", "genes": {}, "phase_seed": rng.randint(0, 999), "paired": rng.random() < 0.6}
     for g in world["genes"][:-1]:
         smp["genes"][g["name"]] = WL.gen_units(rng, g)
+    if rng.random() < 0.5:
+        WL.add_pseudogene_variants(rng, world, smp["genes"], n=rng.randint(1, 2))
+    if rng.random() < 0.3:
+        # the declared neutral region is wider than what the reads cover (positions with zero depth)
+        c0, c1 = world["neutral"]
+        world["neutral_zone"] = [c0 + rng.randint(5, 40), c1 - rng.randint(5, 40)]
     return {"world": world, "samples": {"s0": smp}, "build": rng.choice(["hg19", "hg19", "hg38"]), "ngenes": ng}
 
 
